@@ -10,14 +10,25 @@ def oracle(chk, good):
     for r in good:
         o = r['obs']
         n += 1
-        tol = float.fromhex(o['tol'])
+        # the matching tolerance is re-derived here: 1/1000 of the shortest segment of the whole structure
+        tol = 1e-3 * min(float.fromhex(s_['len']) for g in o['geos'] for s_ in g['segs'])
+        if abs(tol - float.fromhex(o['tol'])) > 1e-9 * tol:
+            chk.violation(dict(stage='c12-oracle', what='matching tolerance'), 'the end-matching tolerance is %.6g, 1/1000 of the shortest segment is %.6g'
+                          % (float.fromhex(o['tol']), tol), r['spec'])
+        # the ends as the user gave them (plain wires without transformations): the program may not move an end by more than it
+        # documents (onto the ground plane when there is one)
+        given = {}
+        sp_ = r['spec']
+        if not sp_.get('transforms') and not sp_.get('scales') and all(w.get('tag') is None for w in sp_['wires']) and all(w['type'] == 'wire' for w in sp_['wires']):
+            for g, w in zip(o['geos'], sp_['wires']):
+                given[g['n']] = (list(map(float, w['p1'])), list(map(float, w['p2'])))
         # independent junction clustering: union-find over non-grounded ends within tol
         ends = []
         gflags = {g['n']: stage_topo.ground_flags(o, g) for g in o['geos']}     # from the coordinates, not from the object
         for g in o['geos']:
             for e, key in ((0, 'p1'), (1, 'p2')):
                 if not gflags[g['n']][e]:
-                    ends.append((g['n'], e, [float.fromhex(v) for v in g[key]]))
+                    ends.append((g['n'], e, given[g['n']][e] if g['n'] in given else [float.fromhex(v) for v in g[key]]))
         par = list(range(len(ends)))
         def find(x):
             while par[x] != x:
@@ -89,6 +100,20 @@ def probes():
     for z in (-5.6e-17, -2.8e-17, -1e-9, 1e-9, 0.0):
         case([gen.wire(5, [0.0, 0.0, z], [0.0, 0.0, 2.0], 0.001)], 'probe-foot-rounding')
         case([gen.wire(5, [0.3, 0.0, 2.0], [0.3, 0.0, z], 0.001), gen.wire(4, [0.3, 0.0, 2.0], [2.0, 0.5, 2.0], 0.001)], 'probe-invl-rounding')
+    # a wire tapered towards its SECOND end holds the shortest segment of the structure; another wire ends 10 / 20 true
+    # tolerances away from it (far inside 1/1000 of the taper's first, longest segment): not joined
+    for gap in (10, 20):
+        a = gen.wire(7, [0.0, 0.0, 1.0], [0.25, 0.0, 1.0], 0.0002, taper=[2, None, None])
+        out.append(dict(id=10 ** 6 + len(out), seed=0, must_accept=True, gap_tolerances=gap,
+                        spec=dict(f=30.0, wires=[a, gen.wire(3, [0.25, 0.0, 1.0 + gap * 2.5e-6], [0.25, 0.9, 1.4], 0.0002)], media=None,
+                                  family='probe-taper2-tolerance', tagmode='none', sources=[], loads=[])))
+    # free space: ends near the plane z = 0 are ends like any others (1.6 tolerances apart across the plane: not joined;
+    # 0.4 tolerances apart at heights 0.9 and 1.3 tolerances: joined)
+    t_ = 1e-3 * 0.25
+    for za, zb in ((0.8 * t_, -0.8 * t_), (0.9 * t_, 1.3 * t_), (-0.3 * t_, 0.3 * t_)):
+        out.append(dict(id=10 ** 6 + len(out), seed=0, must_accept=True,
+                        spec=dict(f=30.0, wires=[gen.wire(4, [-1.0, 0.0, 0.5], [0.0, 0.0, za], 0.0005), gen.wire(4, [0.0, 0.0, zb], [1.0, 0.0, 0.5], 0.0005)],
+                                  media=None, family='probe-free-space-near-z0', tagmode='none', sources=[], loads=[])))
     return out
 
 def run(tier, seed):
